@@ -10,9 +10,9 @@ from props import (MODS, Prop, Stream, View, describe_handle, fail, general_stre
 
 UNRES = "A-Za-z0-9\\-._~"
 SUBD = "!$&'()*+,;="
-RE_USERINFO = re.compile(r"^(?:[%s%s:]|%%[0-9A-F]{2})*$" % (UNRES, re.escape(SUBD)))
-RE_PATH = re.compile(r"^(?:[%s%s:@/]|%%[0-9A-F]{2})*$" % (UNRES, re.escape(SUBD)))
-RE_QF = re.compile(r"^(?:[%s%s:@/?]|%%[0-9A-F]{2})*$" % (UNRES, re.escape(SUBD)))
+RE_USERINFO = re.compile(r"^(?:[%s%s:]|%%[0-9A-F]{2})*\Z" % (UNRES, re.escape(SUBD)))
+RE_PATH = re.compile(r"^(?:[%s%s:@/]|%%[0-9A-F]{2})*\Z" % (UNRES, re.escape(SUBD)))
+RE_QF = re.compile(r"^(?:[%s%s:@/?]|%%[0-9A-F]{2})*\Z" % (UNRES, re.escape(SUBD)))
 RE_QOUT = {
     "QUOTER": RE_USERINFO, "REQUOTER": RE_USERINFO, "PATH_QUOTER": RE_PATH, "PATH_REQUOTER": RE_PATH,
     "QUERY_QUOTER": RE_QF, "QUERY_REQUOTER": RE_QF, "QUERY_PART_QUOTER": RE_QF, "FRAGMENT_QUOTER": RE_QF, "FRAGMENT_REQUOTER": RE_QF,
@@ -258,8 +258,8 @@ def valid_host(rh):
             ipaddress.IPv6Address(body)
             return True
         except ValueError:
-            return bool(re.match(r"^v[0-9a-fA-F]+\.[A-Za-z0-9\-._~!$&'()*+,;=:]+$", rh))
-    return bool(re.match(r"^(?:[a-z0-9\-._~!$&'()*+,;=]|%[0-9a-fA-F]{2})*$", rh))
+            return bool(re.match(r"^v[0-9a-fA-F]+\.[A-Za-z0-9\-._~!$&'()*+,;=:]+\Z", rh))
+    return bool(re.match(r"^(?:[a-z0-9\-._~!$&'()*+,;=]|%[0-9a-fA-F]{2})*\Z", rh))
 
 
 def classify_c03(v, h, text):
@@ -271,7 +271,7 @@ def classify_c03(v, h, text):
         return "skip"
     rh = ("" if rh == "" else dec(rh)) if rh is not None and rh not in ("~",) else None
     path = dec(v.get(h, "raw_path") or "")
-    if scheme and not re.match(r"^[a-z][a-z0-9+.\-]*$", scheme):
+    if scheme and not re.match(r"^[a-z][a-z0-9+.\-]*\Z", scheme):
         return "skip"
     if rh is not None and ("[" in rh or "]" in rh):
         return "malformed-brackets"
